@@ -32,7 +32,7 @@ CONSTANTS Kind,        \* "t" | "a" | "m" | "x"
                        \* the edits creating it), the program is  edit (tick edit)^(MaxE-1) ; U^p (R U)^j U U R R  with
                        \* p \in 1..MaxP, j \in 1..MaxW: every edit is its own capture step, then an outer step is undone / redone /
                        \* undone ... (whatever it re-creates is re-created j+1 times) BEFORE older steps are undone; foreign
-                       \* edits (MaxF) may be interleaved anywhere.  MaxUR is not used.
+                       \* edits (MaxF) may be interleaved after the first call.  MaxUR is not used.
           ,MaxP, MaxW
 
 VARIABLES C,      \* abstract content of the tracked root
@@ -303,9 +303,10 @@ Next ==
   /\ \/ \E o \in Menu(C) : Tracked(o)
      \/ Tick \/ UStop
      \/ Pop(TRUE) \/ Pop(FALSE)
-     \/ \E o \in FMenu(C) : ForeignLocal(o)
-     \/ \E o \in FMenu(C) : RemoteEdit(o, TRUE)
-     \/ \E o \in {x \in FMenu(C) : x.op \in {"ins", "set"} /\ Len(x.p) = 1} : RemoteEdit(o, FALSE)
+     \* wiggle: the other origins act while the outer step is undone / redone (after the first call)
+     \/ (Wiggle => nUR > 0) /\ \E o \in FMenu(C) : ForeignLocal(o)
+     \/ (Wiggle => nUR > 0) /\ \E o \in FMenu(C) : RemoteEdit(o, TRUE)
+     \/ ~Wiggle /\ \E o \in {x \in FMenu(C) : x.op \in {"ins", "set"} /\ Len(x.p) = 1} : RemoteEdit(o, FALSE)
      \/ RemoteDeliver
 
 Init ==
